@@ -16,7 +16,7 @@ pub trait Header: Sized {
         ensures
             0 <= self.declared_total() <= u32::MAX,
             size_of::<Self>() == 8 || size_of::<Self>() == 16,
-            align_of::<Self>() == 1 || align_of::<Self>() == 2 || align_of::<Self>() == 4 || align_of::<Self>() == 8;
+            align_of::<Self>() <= 8;
 
 //@extract multiboot2-common/src/lib.rs :: trait Header :: fn payload_len
 //@  novis
